@@ -310,6 +310,37 @@ func runC11(c *vk.Ctx) {
 				if r.Intn(5) == 0 {
 					amt = sdkmath.NewInt(1 + r.I64n(1000))
 				}
+				if r.Intn(3) == 0 {
+					// the two-step way, with a lock that lasts longer than the unbonding period
+					dur := unbonding + time.Duration(1+r.I64n(30))*24*time.Hour
+					op = "LockTokens+SuperfluidDelegate"
+					c.Logf("%s(owner %d, %s%s for %s, val %d)", op, oi, amt, shareDenom, dur, vi)
+					res := ch.Exec(&lockuptypes.MsgLockTokens{Owner: o.Addr.String(), Duration: dur, Coins: sdk.NewCoins(sdk.NewCoin(shareDenom, amt))})
+					if !res.OK() {
+						c.Logf("  rejected: %s", trunc(res.ErrString(), 160))
+						op += "-rejected"
+						break
+					}
+					id := lockIDFrom(res)
+					if ex := locks[id]; ex != nil {
+						// topped up an existing lock of the same duration
+						markRounding(ex)
+						op += "-topup"
+						break
+					}
+					res = ch.Exec(&sftypes.MsgSuperfluidDelegate{Sender: o.Addr.String(), LockId: id, ValAddr: ch.Vals[vi].OpAddr.String()})
+					if res.OK() {
+						l := &c11Lock{id: id, owner: oi, denom: shareDenom, val: vi, state: "delegated"}
+						locks[l.id] = l
+						markRounding(l)
+					} else {
+						// a plain lock that is not delegated: not part of the model; give it back so that it cannot be topped up later
+						c.Logf("  delegate rejected: %s", trunc(res.ErrString(), 160))
+						ch.Exec(&lockuptypes.MsgBeginUnlocking{Owner: o.Addr.String(), ID: id})
+						op += "-rejected"
+					}
+					break
+				}
 				op = "LockAndSuperfluidDelegate"
 				c.Logf("%s(owner %d, %s%s, val %d)", op, oi, amt, shareDenom, vi)
 				res := ch.Exec(&sftypes.MsgLockAndSuperfluidDelegate{Sender: o.Addr.String(), Coins: sdk.NewCoins(sdk.NewCoin(shareDenom, amt)), ValAddr: ch.Vals[vi].OpAddr.String()})
